@@ -66,6 +66,10 @@ def search(ctx, witnesses=()):
         for step, st in enumerate(steps):
             if st == 'release':
                 release(); held = None; trace.append('release'); continue
+            if st == 'expire-undrained':
+                # the held key's timer runs out and the timer thread queues its release, but the process worker has not
+                # run yet when the next frame arrives (the release callbacks then run while the timer is armed again)
+                env.clock.advance(10 ** 7); env.poll_timers(); trace.append('expire-undrained'); continue
             d, p, fr, f, form = st
             trace.append('press %s %s f=%d %s' % (d.name, p, f, form))
             possible = [x for x in sorted(on, key=lambda z: order[z]) if f == 0 or x.frequency_match(f)]
@@ -82,7 +86,7 @@ def search(ctx, witnesses=()):
             clean = all(o[1] == 'ok' or o[1].startswith('IR:') and 'Repeat' not in o[1] for o in outcomes)
             accepting = [o for o in outcomes if o[1] == 'ok']
             fields = dict(protocol=d.name, step=step, scenario='held' if held else 'idle', held=held[0].name if held else None)
-            wit = dict(enabled=[x.name for x in on], steps=['release' if x == 'release' else [x[0].name, x[1], x[3], x[4]] for x in steps[:step + 1]])
+            wit = dict(enabled=[x.name for x in on], steps=[x if isinstance(x, str) else [x[0].name, x[1], x[3], x[4]] for x in steps[:step + 1]])
             if raised is not None:
                 if clean:
                     ctx.violation('FakeModule.decode', 'raises', '%s after %s' % (type(raised).__name__, trace), fields, input=wit)
@@ -112,8 +116,8 @@ def search(ctx, witnesses=()):
             on = [protos.by_name(n) for n in w['enabled']]
             steps = []
             for st in w['steps']:
-                if st == 'release':
-                    steps.append('release'); continue
+                if isinstance(st, str):
+                    steps.append(st); continue
                 d = protos.by_name(st[0])
                 fr = protos.frames(protos.encode(d, st[1]))[0]
                 steps.append((d, st[1], fr, st[2], st[3]))
@@ -121,6 +125,16 @@ def search(ctx, witnesses=()):
         except Exception as e:
             ctx.notes.append('witness %s could not be replayed: %s' % (w.get('id'), type(e).__name__))
 
+    # late release: press, the timer expires but the release is still queued when the same key arrives again, real release,
+    # then the key is pressed once more and must be reported as a new press
+    for d in r.sample(regular, 12 if not ctx.thorough else len(regular)):
+        p, fr = keys[d][0]
+        st = (d, p, fr, d.frequency, 'list')
+        run_trace([d], [st, 'expire-undrained', st, 'release', st], ('late-release', d.name))
+        if len(keys[d]) > 1:
+            p2, fr2 = keys[d][1]
+            st2 = (d, p2, fr2, d.frequency, 'list')
+            run_trace([d], [st, 'expire-undrained', st, 'release', st2, 'release', st], ('late-release-2', d.name))
     n_seq = 120 if not ctx.thorough else 1500
     for s in range(n_seq):
         on = r.sample(regular, r.randint(1, 5))
